@@ -91,10 +91,11 @@ SPEC = {
             "of a helper or of a cycle member, 1-2 entry points) x 4 targets (Metal shows the closed usage sets as implicit "
             "parameter lists and is_used; the HLSL targets are the control), each compiled 8 times in one process and once in each "
             "of 3 fresh processes, a failure quotes the first differing emitted line and the program; programs whose functions need SEVERAL "
-            "KINDS of implicit parameters on Metal (wave:<seed>, 30 quick / 300 thorough + 7 corpus entries: 3-9 helpers reading "
+            "KINDS of implicit parameters on Metal (wave:<seed>, 30 quick / 300 thorough + 11 corpus entries: 3-9 helpers reading "
             "WaveGetLaneIndex / WaveGetLaneCount, 3-6 globals of 7 kinds, calls of earlier helpers, default arguments on the "
             "definition that read a lane intrinsic and a global, helpers in namespaces, static globals initialised from a lane "
-            "intrinsic or a helper call, compute pipelines and mesh + pixel pipelines with SetMeshOutputCounts in helpers) x 4 "
+            "intrinsic or a helper call, compute pipelines, mesh + pixel pipelines with SetMeshOutputCounts in helpers, task + mesh "
+            "+ pixel pipelines with DispatchMesh in the task shader or a helper of it) x 4 "
             "targets, 8 + 3 compilations each; rejected programs: 119 generated families (3 of them reject through the "
             "CONFIGURATION: 3-6 invalid client defines after well-formed and repeated ones, no file under the entry name, "
             "well-formed defines that make the source ill-formed in 3-6 places; a failure quotes the define list) "
